@@ -1091,3 +1091,31 @@ def subcommand_dispatch(ctx, rid, modname, floor=2):
     if n_checked < floor:
         raise AnalysisError(f"{modname}: only {n_checked} sub-commands recognised")
 
+
+
+def loops_env(outcome, value=None):
+    """The loop tables teval needs to fold the loop-carried values of an outcome: {"__loops__": {line: (iterable term, name of the
+    iterated variable)}, "__loopouts__": {line: {name: update term}}} - loops nested in branches, in other loops and in followed
+    helpers included."""
+    loops, louts = {}, {}
+
+    def collect(effs):
+        for e_ in effs:
+            if isinstance(e_, App) and e_.op == "eff:loop":
+                if getattr(e_.node, "lineno", None) is not None:
+                    it = e_.node.iter if isinstance(e_.node, ast.For) else None
+                    loops[e_.node.lineno] = (e_.args[0], it.id if isinstance(it, ast.Name) else None)
+                collect(e_.args[1].args)
+            elif isinstance(e_, App) and e_.op == "eff:if":
+                collect(e_.args[1].args)
+                collect(e_.args[2].args)
+            elif isinstance(e_, App) and e_.op == "eff:alts":
+                for alt in e_.args:
+                    collect(alt.args)
+
+    collect(outcome.effects)
+    for t in [outcome.value if value is None else value] + list(outcome.conds):
+        for s_ in subterms(t):
+            if isinstance(s_, App) and s_.op == "loopout" and len(s_.args) == 3:
+                louts.setdefault(s_.args[1].v, {})[s_.args[0].v] = s_.args[2]
+    return {"__loops__": loops, "__loopouts__": louts}
